@@ -181,6 +181,11 @@ impl ReceiveChannelUnreliable {
             .entry(slice.message_id)
             .or_insert_with(|| SliceConstructor::new(slice.message_id, slice.num_slices));
 
+        if slice_constructor.num_slices != slice.num_slices {
+            // All slices of a message must agree on the slice count the memory was reserved for
+            return Err(ChannelError::InvalidSliceMessage);
+        }
+
         if let Some(message) = slice_constructor.process_slice(slice.slice_index, &slice.payload)? {
             self.slices.remove(&slice.message_id);
             self.slices_last_received.remove(&slice.message_id);
